@@ -373,7 +373,6 @@ Definition in_domain (c : call) : bool :=
   | FMap => true
   | FMapcar => is_list (c_seq c) && ((c_nseq c =? 1)%nat || is_list (c_seq2 c))
   | FReduce =>
-      (start_absent (c_start c) || (s_start c <? s_end c l1)%nat) &&              (* KF :start = end *)
       (negb (s_start c =? s_end c l1)%nat || match c_init c with Some _ => true | None => false end)   (* KF (reduce '+ '()) *)
   | FConcatenate => true
   (* KF the -if-not functions do not exist *)
